@@ -1789,6 +1789,11 @@ class ForAll(QuantifiedConditional):
                 solution_set = []
                 break
 
+        if solution_set is None:
+            # The universal variable has no values, the condition holds vacuously.
+            yield OperationResult(sources, False, self)
+            return
+
         # Yield the remaining bindings (non-universal) merged with the incoming sources
         yield from [
             OperationResult({**sources, **sol}, False, self) for sol in solution_set
